@@ -10,25 +10,108 @@
      last_def log n  the last entry of the log for name n
      wanted log r n  last_def log n, else the resolver's address for n, else None
      pending tr    the modules loaded successfully since the last completed link
-     redef_of tr   the redefinition permission in force *)
+     redef_of tr   the redefinition permission in force
+
+   Histories go on after an error: a rejected load and a failed link are steps like any other (the
+   error function longjmps back and the context is used again); only a module that cannot even be
+   BUILT ends a history ([dead]).  [run] = the behaviour the property describes (a rejected load
+   has no effect; the tree with fixes/C13-1.patch); [run_pinned] = the tree as pinned, which
+   differs after a rejected load only (pinned_agrees_without_rejection,
+   rejected_load_no_effect_pinned_refuted). *)
 From Coq Require Import List.
 Import ListNotations.
 From MirV Require Import C13.Link C13.LinkProofs C13.BuildProofs C13.LinkExamples.
 
-(* For every history p, every Link step taken after it (whatever follows): the step's output is
-   the next element of the trace, and if no error ended the history before, then
+(* For every history p - rejected loads, failed links and interface-less links included -, every
+   Link step taken after it (whatever follows): the step's output is
+   the next element of the trace, and if every module of p could be built, then
    - a completed link reports one binding list per module loaded since the previous link, in load
      order, and every import n of every such module is bound to the definition of n that was
      loaded last before the step (MIR export or external), else to the resolver's address; the
      resolver was consulted only for names with no definition;
-   - a failed link reports undeclared_op_ref and some import of some pending module has neither
-     a definition nor a resolver address. *)
+   - a failed link (undeclared_op_ref) means that some import of some pending module has neither
+     a definition nor a resolver address.
+   "Loaded since the previous link" = since the previous COMPLETED link: the modules of a failed
+   link are bound again by the next one, to what is latest then. *)
 Theorem link_binds_latest : forall (p : list op) (r : resolver) (rest : list op),
   exists out tail,
     snd (run (p ++ Link r :: rest)) = snd (run p) ++ (Link r, out) :: tail /\
     (dead (fst (run p)) = false -> link_step_spec (snd (run p)) r out).
 Proof. exact link_binds_latest_proof. Qed.
 Print Assumptions link_binds_latest.
+
+(* the same without the liveness premise: no load error and no link error ends a history *)
+Theorem link_binds_latest_all : forall (p : list op) (r : resolver) (rest : list op),
+  Forall builds p ->
+  exists out tail,
+    snd (run (p ++ Link r :: rest)) = snd (run p) ++ (Link r, out) :: tail /\
+    link_step_spec (snd (run p)) r out.
+Proof. exact link_binds_latest_all_proof. Qed.
+Print Assumptions link_binds_latest_all.
+
+Theorem errors_do_not_end_history : forall h, Forall builds h -> dead (fst (run h)) = false.
+Proof. exact alive_proof. Qed.
+Print Assumptions errors_do_not_end_history.
+
+(* MIR_link with a NULL set_interface: the same bindings are made and reported, the modules stay
+   queued (queue_is_pending: only a completed Link empties the queue). *)
+Theorem nulliface_binds_latest : forall (p : list op) (r : resolver) (rest : list op),
+  Forall builds p ->
+  exists out tail,
+    snd (run (p ++ LinkNoIface r :: rest)) = snd (run p) ++ (LinkNoIface r, out) :: tail /\
+    bind_step_spec (snd (run p)) r out.
+Proof. exact nulliface_binds_latest_proof. Qed.
+Print Assumptions nulliface_binds_latest.
+
+(* "Rejected": a load that raises repeated_decl leaves the table of globals, the queue, the
+   permission and the recorded bindings as they were, and the history goes on; on the trace it
+   contributes nothing to the log of definitions. *)
+Theorem rejected_load_no_effect : forall s ds e,
+  dead s = false -> (exists m, build ds = inl m) ->
+  snd (step true s (Load ds)) = OErr e ->
+  let s' := fst (step true s (Load ds)) in
+  env s' = env s /\ to_link s' = to_link s /\ redef s' = redef s /\ linked s' = linked s /\
+  dead s' = false.
+Proof. exact rejected_load_no_effect_proof. Qed.
+Print Assumptions rejected_load_no_effect.
+
+Theorem rejected_load_invisible : forall tr ds e,
+  pubs (tr ++ [(Load ds, OErr e)]) = pubs tr /\ pending (tr ++ [(Load ds, OErr e)]) = pending tr /\
+  redef_of (tr ++ [(Load ds, OErr e)]) = redef_of tr.
+Proof. exact rejected_load_invisible_proof. Qed.
+Print Assumptions rejected_load_invisible.
+
+(* The pinned tree violates this (MIR_load_module runs the check after setup_global): witness
+   `L e0 F0 ; L e0 F0`, and `L e0 F0 ; L e0 F0 ; L i0 ; K` binds the import to the function of the
+   rejected, never linked module.  fixes/C13-1.patch. *)
+Theorem rejected_load_no_effect_pinned_refuted :
+  exists s ds e, dead s = false /\ (exists m, build ds = inl m) /\
+    snd (step false s (Load ds)) = OErr e /\ env (fst (step false s (Load ds))) <> env s.
+Proof. exact rejected_load_pinned_refuted_proof. Qed.
+Print Assumptions rejected_load_no_effect_pinned_refuted.
+
+Theorem rejected_load_binding_pinned_refuted :
+  exists h, Forall builds h /\ linked (fst (run_pinned h)) <> linked (fst (run h)).
+Proof. exact rejected_load_pinned_binding_refuted_proof. Qed.
+Print Assumptions rejected_load_binding_pinned_refuted.
+
+(* Everything else is the same on the pinned tree: the two variants agree on every history in
+   which no load is rejected. *)
+Theorem pinned_agrees_without_rejection : forall h,
+  existsb is_rejection (snd (run h)) = false -> run_pinned h = run h.
+Proof. exact variants_agree_proof. Qed.
+Print Assumptions pinned_agrees_without_rejection.
+
+(* A failed link keeps the queue and the recorded bindings; the table of globals only gains the
+   addresses the resolver supplied before the failing import, for names that had no definition. *)
+Theorem failed_link_effect : forall s r res,
+  snd (step true s (Link r)) = OLinkFailed res ->
+  let s' := fst (step true s (Link r)) in
+  to_link s' = to_link s /\ linked s' = linked s /\ redef s' = redef s /\ dead s' = false /\
+  env s' = apply_new (env s) res /\
+  (forall n, assoc (env s) n <> None -> assoc (env s') n = assoc (env s) n).
+Proof. exact failed_link_effect_proof. Qed.
+Print Assumptions failed_link_effect.
 
 (* Loading a built module after any history either succeeds or raises repeated_decl, and it raises
    it exactly when redefinition is not permitted and the module exports a FUNCTION whose name
@@ -37,7 +120,7 @@ Print Assumptions link_binds_latest.
 Theorem link_redef_rejected : forall (h : list op) (ds : list decl) (m : modl),
   let s := fst (run h) in
   let tr := snd (run h) in
-  let out := snd (step s (Load ds)) in
+  let out := snd (step true s (Load ds)) in
   dead s = false -> build ds = inl m ->
   (out = OOk \/ out = OErr ERepeatedDecl) /\
   (out = OErr ERepeatedDecl <-> redef_of tr = false /\ redefines (pubs tr) (loads_in tr) m).
@@ -53,8 +136,8 @@ Theorem second_function_export_rejected : forall (h : list op) (ds : list decl) 
   dead s = false -> build ds = inl m ->
   In (n, DMod k i KFunc) (pubs tr) ->
   In it (mitems m) -> ik it = KFunc -> iexp it = true -> iname it = n ->
-  (snd (step s (Load ds)) = OErr ERepeatedDecl <-> redef_of tr = false) /\
-  (redef_of tr = true -> snd (step s (Load ds)) = OOk).
+  (snd (step true s (Load ds)) = OErr ERepeatedDecl <-> redef_of tr = false) /\
+  (redef_of tr = true -> snd (step true s (Load ds)) = OOk).
 Proof. exact second_function_export_proof. Qed.
 Print Assumptions second_function_export_rejected.
 
@@ -64,8 +147,8 @@ Theorem link_earlier_bindings_stable : forall (h later : list op),
 Proof. exact link_earlier_bindings_stable_proof. Qed.
 Print Assumptions link_earlier_bindings_stable.
 
-Theorem link_records_bindings : forall s r bs res,
-  snd (step s (Link r)) = OLinked bs res -> linked (fst (step s (Link r))) = linked s ++ bs.
+Theorem link_records_bindings : forall am s r bs res,
+  snd (step am s (Link r)) = OLinked bs res -> linked (fst (step am s (Link r))) = linked s ++ bs.
 Proof. exact link_records_bindings_proof. Qed.
 Print Assumptions link_records_bindings.
 
